@@ -100,6 +100,17 @@ class C08(Prop):
             c = self._case(rng, tbl, idx, size, retries, rng.random() < 0.5, evs, "frames")
             c["b0"] = rng.randrange(256)
             cases.append(c)
+        # a mixer parameter of a real device; the creating response starts at slot 0, every later report is a PARTIAL response that starts at
+        # the parameter's own slot and also carries the next slot with an unrelated value
+        mix = [x for x in targets if x[0] in (2, 3) and x[1] >= 1]
+        for _ in range(80 if tier == "quick" else 1500):
+            tbl, idx, size = rng.choice(mix)
+            retries = rng.choice([1, 2, 3])
+            evs = [rng.choice(["tick", "tick", "stale", "stale", "confirm", "third"]) for _ in range(rng.randrange(1, 8))]
+            c = self._case(rng, tbl, idx, size, retries, rng.random() < 0.5, evs, "mixer-frames")
+            c["b0"] = rng.randrange(256)
+            c["unrelated"] = rng.choice([v for v in range(1, 250) if v not in (c["triple"][0], c["req"])])
+            cases.append(c)
         # ... with the thread-pool job behind Request.create completing late: a report is handled while the request of a
         # transmission is being built (`hop` = first event, or the event right after a timer expiry)
         for _ in range(150 if tier == "quick" else 3000):
@@ -149,6 +160,18 @@ class C08(Prop):
         if c["kind"] == "two-calls":
             res = vloop.run(param_impl.run_session, c["tbl"], c["idx"], c["triple"], c["calls"], c["tracking"])
             return [[r[0] for r in res], [r[1] for r in res]]
+        if c["kind"] == "mixer-frames":
+            if "_payloads" not in c:
+                idx = c["idx"]
+                full = [[[([c["triple"]] if k == idx else [[k + 1, 0, 255]]) for k in range(idx + 2)]]]
+                pls = [list(model.call("enc_mixer_params", [c["b0"], 0, idx + 2, full[0:1] and [full[0][0]]]))]
+                for ev in c["events"]:
+                    if ev[0] == 1:
+                        pls.append(list(model.call("enc_mixer_params", [c["b0"], idx, 2, [[[ev[1]], [[c["unrelated"], 0, 255]]]]])))
+                c["_payloads"] = pls
+            outs, after, _ = vloop.run(param_impl.run_set_call_frames, c["tbl"] - 2, c["idx"], c["triple"], c["req"], c["retries"],
+                                       c.get("timeout", 5.0), c["events"], c["tracking"], c["_payloads"], False, True)
+            return [outs, after]
         if c["kind"] in ("frames", "frames-hop"):
             if "_payloads" not in c:
                 trs = [c["triple"]] + [ev[1] for ev in c["events"] if ev[0] in (1, 3)]
